@@ -254,6 +254,33 @@ def run_shard(rec):
                 ins = spaced_inputs(rng, base, ialpha, bytes_mode, 4)
                 run_one(rec, G, ins, tag + (ctx_name, cname, sk, 'after' if after else 'before'),
                         trace=(idx % 3 == 0), unit=None if isinstance(ialpha, str) else ' ')
+    # literals in ARGUMENT position: every literal kind handed to a template (by position and by
+    # keyword) and to a class template, under every ignore configuration -- a literal skips ignorable
+    # text wherever it is written
+    for bytes_mode in (False, True):
+        if bytes_mode:
+            lits = [('bstr', ('bstr', b'a')), ('bistr', ('bistr', b'a')), ('bre', ('bre', 'a+', False)), ('byte', ('byte', 0x61)), ('bre-i', ('bre', 'b', True))]
+            rest = ('bre', '[ab]*', False)
+        else:
+            lits = [('str', ('str', 'a')), ('istr', ('istr', 'a')), ('re', ('re', 'a+', False)), ('re-i', ('re', 'b', True)), ('re-class', ('re', '[ab]', False)),
+                    ('alt', ('alt', [('str', 'ab'), ('re', 'a', False)]))]
+            rest = ('re', '[ab]*', False)
+        base = work.inputs_for('ab', 3 if quick else 4, bytes_mode)
+        for ltag, lit in lits:
+            for atag, args in (('pos', [lit]), ('kw', [('kw', 'p', lit)])):
+                for wtag, stmts in (('rule', [('rule', 'W', ['p'], ('seq', [('ref', 'p'), ('opt', ('ref', 'p'))]))]),
+                                    ('class', [('class', 'W', ['p'], [('field', 'v', ('ref', 'p')), ('field', 'w', ('star', ('ref', 'p')))])]),
+                                    ('nested', [('rule', 'W', ['p'], ('call', 'V', [('ref', 'p')])), ('rule', 'V', ['q'], ('plus', ('ref', 'q')))])):
+                    for cname, cstmts, ialpha in ignore_configs(bytes_mode):
+                        idx += 1
+                        if not rec.mine(idx):
+                            continue
+                        if quick and (idx // 16) % 3 != rec.seed % 3:
+                            continue
+                        G0 = dict(name=None, extends=None, stmts=[('rule', 'start', None, ('seq', [('call', 'W', args), rest]))] + stmts)
+                        G = with_ignore(G0, cstmts, idx % 2 == 0, 'start')
+                        ins = spaced_inputs(rng, base, ialpha, bytes_mode, 4)
+                        run_one(rec, G, ins, ('argument', ltag, atag, wtag, cname), trace=(idx % 3 == 0), unit=None if isinstance(ialpha, str) else ' ')
     # random multi-rule grammars with every ignore configuration
     n_random = 40 if quick else 900
     cfgs = ignore_configs(False)
